@@ -172,6 +172,9 @@ FEATURES = {
     "dimension_reads_versioned_local": "a dimension that reads a local variable (which SSA conversion must give a version)",
     "signal_declared_under_control_flow": "a signal declared in a block other than the entry block (under a branch or in a loop)",
     "dimension_with_value_claim_on_a_non_literal": "a dimension expression (not a literal) that carries a constant-value claim",
+    "redeclared_local_with_lookalike_name": "two different variables (name, suffix) whose PRINTED names coincide: a re-declared local `x` (internal suffix k, printed `x_k`) "
+                                            "next to a variable whose source name is `x_k`",
+    "lookalike_pair_one_constant_one_not": "such a pair where, at an equal SSA version, one variable is assigned a claimed constant and the other is assigned without one",
 }
 
 
@@ -214,6 +217,28 @@ def features_of(pre, acc, ssa=None):
                         if any(a[0] == "idx" and a[1][0] != "num" for a in y[2]):
                             seen.add("port_read_at_nonliteral_index")
             _walk(st, node)
+    # variables are identified by (name, suffix, version) STRUCTURALLY here, in the oracle (irsem.key) and in the mirror
+    # (Ir.vname_eqb); the printed form name_suffix.version is not injective
+    printed = {}
+    for d in list(pre[3][1:]) + [[q] for q in pre[2][1:]]:
+        v = d[0]
+        printed.setdefault(sexp.unhex(v[1]) + ("_" + sexp.unhex(v[2]) if v[2] != "-" else ""), set()).add((v[1], v[2]))
+    clash = [ks for ks in printed.values() if len(ks) > 1]
+    if clash:
+        seen.add("redeclared_local_with_lookalike_name")
+    if ssa is not None and clash:
+        const_at = {}
+        for b in ssa[4][1:]:
+            for st in b[3]:
+                if st[0] == "subst" and st[2][3] != "-":
+                    const_at[(st[2][1], st[2][2], st[2][3])] = st[5] != "-"
+        for ks in clash:
+            ks = sorted(ks)
+            for i in range(len(ks)):
+                for j in range(i + 1, len(ks)):
+                    for (n_, s_, ver), isc in const_at.items():
+                        if (n_, s_) == ks[i] and const_at.get((ks[j][0], ks[j][1], ver)) is (not isc):
+                            seen.add("lookalike_pair_one_constant_one_not")
     if ssa is not None:
         for b in ssa[4][1:]:
             for st in b[3]:
